@@ -182,12 +182,13 @@ func (n *NodeStatusWatcher) initNodeStatus(ctx context.Context) {
 }
 
 func (n *NodeStatusWatcher) monitor(ctx context.Context) error {
-	// init node status first
-	go n.initNodeStatus(ctx)
 	logger := log.WithFunc("selfmon.monitor").WithField("ID", n.ID)
 
-	// monitor node status
+	// monitor node status; the stream is opened before the current statuses are
+	// examined so that a status disappearing in between is not missed
 	messageChan := n.cluster.NodeStatusStream(ctx)
+	// init node status
+	go n.initNodeStatus(ctx)
 	logger.Info(ctx, "watch node status started")
 	defer logger.Info(ctx, "stop watching node status")
 
